@@ -276,7 +276,7 @@ Proof.
   rewrite !z2n_of_N. cbn [rbind]. rewrite takeN_app_exact, dropN_app_exact.
   rewrite (read_page_deflate compress decompress codec_rt). cbn [rbind]. rewrite ?z2n_of_N. cbn [rbind].
   cbn [cd_of cd_type cd_tlen].
-  pose proof (plain_roundtrip (wc_type c) (wc_tlen c) labels [] VD) as PR. rewrite app_nil_r, <- lenN_ok in PR. rewrite PR.
+  destruct (w_plain_dec (wc_type c) (wc_tlen c) labels [] VD) as (r' & PR). rewrite app_nil_r in PR. rewrite PR.
   pose proof (rd_pages_cat selfmade skip_nulls c (sumN (map w_rows (wc_pages c))) (Some labels) (wc_pages c) clock' 0 []
                 W DP HW SK) as RD.
   unfold wp_bytes in RD. fold restb in RD. rewrite RD by (try exact L'; lia). reflexivity.
